@@ -1,6 +1,8 @@
 // Common harness support: argument parsing, partitioning, line protocol, boundary lattices,
 // outcome capture. Header-only, no dependency on RLBox.
 #pragma once
+#include <csignal>
+#include <cstring>
 #include <algorithm>
 #include <chrono>
 #include <cstdint>
@@ -113,6 +115,37 @@ inline void viol(const std::string& sig, const std::string& kase, const std::str
     printf("#VIOL {\"sig\":\"%s\",\"case\":\"%s\",\"detail\":\"%s\"}\n", jesc(sig).c_str(), jesc(kase).c_str(),
            jesc(detail).c_str());
   fflush(stdout);
+}
+// ---- crash of the code under test = violation of the case that was running ---------------------------------
+// A harness that names the case it is about to run (crash_case) gets a #VIOL line with kind=crash for it when the
+// process is killed by SIGSEGV / SIGBUS / SIGILL / SIGFPE / SIGABRT inside that case (a jump through an empty entry
+// point, std::terminate, ...); the driver replays the case alone, which must die the same way. Without a named case
+// the signal keeps its default meaning (a harness error).
+inline char g_cc_sig[1024], g_cc_case[8192];
+inline void crash_case(const std::string& sig, const std::string& kase)
+{
+  snprintf(g_cc_sig, sizeof g_cc_sig, "%s", jesc(sig).c_str());
+  snprintf(g_cc_case, sizeof g_cc_case, "%s", jesc(kase).c_str());
+}
+inline void crash_clear() { g_cc_sig[0] = 0; }
+inline void crash_reporter(int s)
+{
+  if (g_cc_sig[0]) {
+    printf("#VIOL {\"sig\":\"%s kind=crash\",\"case\":\"%s\",\"detail\":\"the process was killed by signal %d while this case ran\"}\n", g_cc_sig, g_cc_case, s);
+    fflush(stdout);
+  }
+  signal(s, SIG_DFL);
+  raise(s);
+}
+inline void install_crash_reporter()
+{
+  for (int s : { SIGSEGV, SIGBUS, SIGILL, SIGFPE, SIGABRT }) {
+    struct sigaction sa;
+    memset(&sa, 0, sizeof sa);
+    sa.sa_handler = crash_reporter;
+    sa.sa_flags = SA_NODEFER | SA_RESETHAND;
+    sigaction(s, &sa, nullptr);
+  }
 }
 inline void finish(bool capped = false, const char* why = "deadline")
 {
